@@ -50,3 +50,14 @@ func TestStacks(t *testing.T) {
 		}()
 	}
 }
+
+// MVP-7.1, 3 cores: the execute unit's pre-step panics "invalid state" when it has to
+// abandon a wrong-path instruction whose cache controller still has pending snoop messages.
+const progInvalid71 = `lw t1, 64(zero)
+beqz t1, L0
+sw t2, 128(zero)
+L0:
+lw t1, 4(zero)
+sw t3, 128(zero)
+lw t0, 128(zero)
+ret`
